@@ -1,7 +1,7 @@
 (* C17 — the staircase theorem for sources whose built program has no repetition node. *)
 From Coq Require Import ZArith QArith List Bool Lia ZifyBool Setoid.
 Require Import QV.C17.Model QV.C17.Spec QV.C17.Proofs QV.C17.ProofsVM QV.C17.SimDefs QV.C17.ProofsSim4 QV.C17.ProofsSim6
-               QV.C17.ProofsBuild.
+               QV.C17.ProofsBuild QV.C17.ProofsGuard.
 Import ListNotations.
 Local Open Scope Z_scope.
 
@@ -50,3 +50,44 @@ Theorem staircase_rep : forall C s fuel h t,
   pipeline fuel C s = Ok (h, t) ->
   plays h (fst (staircase s)) = true /\ Qeq_bool t (snd (staircase s)) = true.
 Proof. intros C s fuel h t HG HS. apply (staircase_gen true); auto. Qed.
+
+(* the staircase theorem with source-level hypotheses *)
+Theorem staircase_full : forall C s fuel h t,
+  src_wf C s = true -> guard_C17_zero_factor_depth 0 s = true -> guard_C17_key_collision s = true ->
+  guard_C17_repetition_entry_state s = true ->
+  pipeline fuel C s = Ok (h, t) ->
+  plays h (fst (staircase s)) = true /\ Qeq_bool t (snd (staircase s)) = true.
+Proof. intros C s fuel h t HW HZ HK HS. apply staircase_rep; auto. apply built_ok_of_source; auto. Qed.
+
+(* the statement of round 1 (Spec.v, two guards) is false of the model in two corner classes *)
+Definition wit_resolution : src :=
+  SIter 0 3 1 (SSeq [SHold 1 [VAff 0 [q 1 2]]; SHold 1 [VAff 0 [q 5000000001 10000000000]]]).
+Definition wit_extra_coef : src :=
+  SIter 3 5 2 (SSeq [SHold 1 [VPlain (q (-1) 2)]; SHold 2 [VAff 0 [q 0 1; q 1 1]]; SHold 3 [VPlain (q (-1) 2)]]).
+
+Lemma refute_statement : forall channels s fuel h t,
+  src_wf channels s = true -> guard_C17_zero_factor s = true -> guard_C17_repetition_entry_state s = true ->
+  pipeline fuel channels s = Ok (h, t) -> plays h (fst (staircase s)) = false -> ~ C17_staircase_statement.
+Proof.
+  intros channels s fuel h t Hwf H1 H2 Hp Hpl Hall.
+  destruct (Hall channels s fuel h t Hwf H1 H2 Hp) as [Hc _]. rewrite Hpl in Hc. discriminate.
+Qed.
+
+Lemma statement_refuted_resolution : ~ C17_staircase_statement /\ guard_C17_key_collision wit_resolution = false.
+Proof.
+  split; [|vm_compute; reflexivity].
+  eapply (refute_statement 1%nat wit_resolution 200%positive); vm_compute; reflexivity.
+Qed.
+
+Lemma statement_refuted_extra_coef : ~ C17_staircase_statement /\ guard_C17_zero_factor_depth 0 wit_extra_coef = false.
+Proof.
+  split; [|vm_compute; reflexivity].
+  eapply (refute_statement 1%nat wit_extra_coef 200%positive); vm_compute; reflexivity.
+Qed.
+
+Lemma staircase_full_nonvacuous :
+  src_wf 2 wit_good = true /\ guard_C17_zero_factor_depth 0 wit_good = true /\ guard_C17_key_collision wit_good = true /\
+  guard_C17_repetition_entry_state wit_good = true /\ exists h t, pipeline 1000 2 wit_good = Ok (h, t) /\ length h = 21%nat.
+Proof.
+  repeat split; try (vm_compute; reflexivity). eexists; eexists. split; vm_compute; reflexivity.
+Qed.
